@@ -156,6 +156,77 @@ class _CanonRet(ast.NodeTransformer):
         return node
 
 
+def _gen1(e):
+    """(target, iter, [conds], elt) of a one-clause generator / list comprehension, else None"""
+    if isinstance(e, (ast.GeneratorExp, ast.ListComp)) and len(e.generators) == 1 and not e.generators[0].is_async:
+        g = e.generators[0]
+        return g.target, g.iter, list(g.ifs), e.elt
+    return None
+
+
+def _and(conds):
+    return conds[0] if len(conds) == 1 else ast.BoolOp(op=ast.And(), values=list(conds))
+
+
+class _CanonLoops(ast.NodeTransformer):
+    """the functional spellings of four loop idioms are read as the loops the code base writes them as:
+       if not any(C for T in IT): S          ->  for T in IT: (if C: break)  else: S
+       f = any(C for T in IT)                ->  f = False; for T in IT: if C: f = True; break
+       n = sum(1 for T in IT if C)           ->  n = 0; for T in IT: if C: n += 1
+       acc.extend(E for T in IT if C)        ->  for T in IT: if C: acc.append(E)
+    and inside a loop ``if C: continue`` followed by the rest of the body is read as ``if not C: <rest>``"""
+
+    def _stmts(self, stmts, in_loop):
+        out = []
+        for i, st in enumerate(stmts):
+            if in_loop and isinstance(st, ast.If) and not st.orelse and len(st.body) == 1 and isinstance(st.body[0], ast.Continue) \
+                    and i + 1 < len(stmts):
+                rest = self._stmts(stmts[i + 1:], in_loop)
+                out.append(ast.copy_location(ast.If(test=ast.UnaryOp(op=ast.Not(), operand=st.test), body=rest, orelse=[]), st))
+                return out
+            out.extend(self._one(st))
+        return out
+
+    def _one(self, st):
+        # if not any(genexp): S
+        if isinstance(st, ast.If) and not st.orelse and isinstance(st.test, ast.UnaryOp) and isinstance(st.test.op, ast.Not) \
+                and isinstance(st.test.operand, ast.Call) and isinstance(st.test.operand.func, ast.Name) and st.test.operand.func.id == 'any' \
+                and len(st.test.operand.args) == 1 and _gen1(st.test.operand.args[0]):
+            t, it, conds, elt = _gen1(st.test.operand.args[0])
+            inner = ast.If(test=_and(conds + [elt]), body=[ast.Break()], orelse=[])
+            return [ast.copy_location(ast.For(target=t, iter=it, body=[inner], orelse=st.body, type_comment=None), st)]
+        if isinstance(st, ast.Assign) and len(st.targets) == 1 and isinstance(st.targets[0], ast.Name) and isinstance(st.value, ast.Call) \
+                and isinstance(st.value.func, ast.Name) and len(st.value.args) == 1 and not st.value.keywords and _gen1(st.value.args[0]):
+            t, it, conds, elt = _gen1(st.value.args[0])
+            name = st.targets[0].id
+            if st.value.func.id == 'any':
+                body = [ast.Assign(targets=[ast.Name(id=name, ctx=ast.Store())], value=ast.Constant(True)), ast.Break()]
+                loop = ast.For(target=t, iter=it, body=[ast.If(test=_and(conds + [elt]), body=body, orelse=[])], orelse=[], type_comment=None)
+                return [ast.copy_location(ast.Assign(targets=[ast.Name(id=name, ctx=ast.Store())], value=ast.Constant(False)), st),
+                        ast.copy_location(loop, st)]
+            if st.value.func.id == 'sum' and isinstance(elt, ast.Constant) and elt.value == 1 and isinstance(st.value.args[0], ast.GeneratorExp):
+                inc = ast.AugAssign(target=ast.Name(id=name, ctx=ast.Store()), op=ast.Add(), value=ast.Constant(1))
+                body = [ast.If(test=_and(conds), body=[inc], orelse=[])] if conds else [inc]
+                loop = ast.For(target=t, iter=it, body=body, orelse=[], type_comment=None)
+                return [ast.copy_location(ast.Assign(targets=[ast.Name(id=name, ctx=ast.Store())], value=ast.Constant(0)), st),
+                        ast.copy_location(loop, st)]
+        if isinstance(st, ast.Expr) and isinstance(st.value, ast.Call) and isinstance(st.value.func, ast.Attribute) and st.value.func.attr == 'extend' \
+                and len(st.value.args) == 1 and isinstance(st.value.args[0], ast.GeneratorExp) and _gen1(st.value.args[0]):
+            t, it, conds, elt = _gen1(st.value.args[0])
+            app = ast.Expr(value=ast.Call(func=ast.Attribute(value=st.value.func.value, attr='append', ctx=ast.Load()), args=[elt], keywords=[]))
+            body = [ast.If(test=_and(conds), body=[app], orelse=[])] if conds else [app]
+            return [ast.copy_location(ast.For(target=t, iter=it, body=body, orelse=[], type_comment=None), st)]
+        return [st]
+
+    def generic_visit(self, node):
+        super().generic_visit(node)
+        for fld in ('body', 'orelse', 'finalbody'):
+            v = getattr(node, fld, None)
+            if isinstance(v, list) and v and isinstance(v[0], ast.stmt) and not isinstance(node, ast.ClassDef):
+                setattr(node, fld, self._stmts(v, isinstance(node, (ast.For, ast.While)) and fld == 'body'))
+        return node
+
+
 class _CanonTernary(ast.NodeTransformer):
     """``x = A if c else B`` (a statement of its own) is read as ``if c: x = A  else: x = B``"""
 
@@ -312,7 +383,7 @@ class Program:
                 src = fp.read()
             tree = ast.parse(src, filename=path)
             tree = ast.fix_missing_locations(_CanonRet().visit(_CanonAug().visit(tree)))
-            tree = ast.fix_missing_locations(_CanonTernary().visit(_CanonInline().visit(tree)))
+            tree = ast.fix_missing_locations(_CanonLoops().visit(_CanonTernary().visit(_CanonInline().visit(tree))))
         except (OSError, SyntaxError) as e:
             raise AnalysisError(f'cannot parse {path}: {e}') from e
         mi = ModuleInfo(
